@@ -188,6 +188,7 @@ pub fn initial_images(g: &Geo, which: &[&str]) -> Vec<ImageSet> {
                 }
                 s.refcount_last = true;
                 s.gap = 1;
+                s.free_junk = true;
                 out.push(from_specs(&format!("{}-data", g.name), "data", vec![s]));
             }
             "zero" => {
